@@ -42,6 +42,9 @@ CLAIMS = {
  "C13": dict(cat="proof", tech="machine-checked proof in Coq (affine composition) + node-for-node correspondence of the import model (frames, affine rows) + substitution-semantics oracle",
    text="Kernel-checked over the reals: the flattened matrix of consecutive affine remaps acts as the factors applied in order (later remap first on the coordinates). Context::import with RemapAxes / RemapAffine is modelled as a recursive substitution (Ctx.import_rec) and equals the implementation node-for-node on random nested remaps; values are compared with the substitution semantics evaluated directly on the tree.",
    ref="DESIGN.md §5 C13", note="The import-as-substitution theorem over the Context model is being proved (CtxProof)."),
+ "C16": dict(cat="proof", tech="machine-checked proof in Coq (named planes / revolve axis from regenerated tables; geometry theorems over R in progress) + node-for-node correspondence of every shape builder + closed-form geometry oracle",
+   text="Every From<_> for Tree body of fidget-shapes is a Gallina tree builder generic in the scalar type; the f32 instance imported into the Context model equals Tree::from(shape) imported into a Context node-for-node for all 26 shapes and named planes on random parameters (including nalgebra's f32 affine products). Named-plane axes and RevolveY's radius plane are regenerated from the source and proved to be the documented ones. The oracle compares every shape with closed-form f64 geometry at 24 points per case.",
+   ref="DESIGN.md §5 C16", note="Geometry theorems over the reals (inside <-> negative, T(s)(p) = s(T^-1 p)) are being proved (ShapesSound)."),
 }
 
 def main():
